@@ -126,6 +126,83 @@ macro_rules! cases_cmd {
     }};
 }
 
+macro_rules! gens_cmd {
+    ($modname:ident, $args:expr, $extra:expr) => {{
+        let args = $args;
+        let script: Value = serde_json::from_str(&std::fs::read_to_string(arg(args, "--script").expect("--script")).unwrap()).unwrap();
+        let seed: u64 = arg(args, "--seed").map(|s| s.parse().unwrap()).unwrap_or(1);
+        let maxcap: usize = arg(args, "--maxcap").map(|s| s.parse().unwrap()).unwrap_or(32);
+        let threads: usize = arg(args, "--threads").map(|s| s.parse().unwrap()).unwrap_or(0);
+        let mut bad: Vec<String> = vec![];
+        let mut n_checked = 0u64;
+        let mut all = std::collections::HashMap::new();
+        let ns = [1usize, 2, 4, 8, 16, 32, 64];
+        let mut cap = 1;
+        let mut combos = vec![];
+        while cap <= maxcap {
+            for n in ns {
+                combos.push((n, cap));
+            }
+            cap *= 2;
+        }
+        if threads > 0 {
+            // every construction on every thread gives the same generators: construct concurrently, compare encodings
+            let reference: Vec<Vec<[u8; 32]>> = combos.iter().take(14).map(|(n, c)| $modname::gens_fingerprint(*n, *c)).collect();
+            let hs: Vec<_> = (0..threads).map(|_| { let cs: Vec<(usize, usize)> = combos.iter().take(14).cloned().collect(); std::thread::spawn(move || cs.iter().map(|(n, c)| $modname::gens_fingerprint(*n, *c)).collect::<Vec<_>>()) }).collect();
+            for (ti, h) in hs.into_iter().enumerate() {
+                match h.join() {
+                    Ok(v) => { if v != reference { bad.push(format!("thread {} constructed different generators", ti)); } },
+                    Err(_) => bad.push(format!("thread {} panicked constructing generators", ti)),
+                }
+            }
+        }
+        for (n, cap) in combos {
+            bad.extend($modname::check_generators(&script, n, cap, seed, &mut all));
+            n_checked += 2 * (n * cap) as u64;
+        }
+        bad.extend($extra(&script));
+        println!("{}", json!({"group": $modname::GROUP, "generators_checked": n_checked, "distinct_encodings": all.len(), "mismatches": bad}));
+    }};
+}
+
+/// blinding generators and the value generator of the Ristretto instantiation against the script
+fn rist_pedersen_check(script: &Value) -> Vec<String> {
+    use curve25519_dalek::{constants::RISTRETTO_BASEPOINT_POINT, ristretto::RistrettoPoint, traits::IsIdentity};
+    use sha3::{Digest, Sha3_512};
+    use tari_bulletproofs_plus::{generators::pedersen_gens::ExtensionDegree, ristretto::create_pedersen_gens_with_extension_degree};
+    let mut bad = vec![];
+    let labels: Vec<Vec<u8>> = script["mask_labels"].as_array().unwrap().iter().map(|l| l.as_array().unwrap().iter().map(|x| x.as_u64().unwrap() as u8).collect()).collect();
+    let reference: Vec<RistrettoPoint> = labels.iter().map(|l| { let mut h = Sha3_512::new(); h.update(l); RistrettoPoint::from_uniform_bytes(&h.finalize().into()) }).collect();
+    let mut seen = std::collections::HashSet::new();
+    for t in 1..=6usize {
+        let pc = create_pedersen_gens_with_extension_degree(ExtensionDegree::try_from(t).unwrap());
+        if pc.h_base != RISTRETTO_BASEPOINT_POINT || pc.h_base_compressed != pc.h_base.compress() {
+            bad.push(format!("degree {}: value generator is not the basepoint / its encoding", t));
+        }
+        if pc.g_base_vec.len() != t || pc.g_base_compressed_vec.len() != t || pc.extension_degree as usize != t {
+            bad.push(format!("degree {}: {} blinding generators", t, pc.g_base_vec.len()));
+            continue;
+        }
+        for k in 0..t {
+            if pc.g_base_vec[k] != reference[k] {
+                bad.push(format!("degree {}: blinding generator {} is not the documented derivation", t, k + 1));
+            }
+            if pc.g_base_compressed_vec[k] != pc.g_base_vec[k].compress() {
+                bad.push(format!("degree {}: compressed blinding generator {} is not the encoding of the point", t, k + 1));
+            }
+            if pc.g_base_compressed_vec[k].is_identity() {
+                bad.push(format!("degree {}: blinding generator {} is the identity", t, k + 1));
+            }
+            seen.insert(pc.g_base_compressed_vec[k].to_bytes());
+        }
+        seen.insert(pc.h_base_compressed.to_bytes());
+    }
+    if seen.len() != 7 {
+        bad.push(format!("value and blinding generators are not pairwise distinct ({} distinct of 7)", seen.len()));
+    }
+    bad
+}
+
 fn main() {
     let args: Vec<String> = std::env::args().collect();
     let cmd = args.get(1).map(|s| s.as_str()).unwrap_or("");
@@ -139,6 +216,10 @@ fn main() {
         "cases" => match arg(&args, "--group").unwrap_or("rist") {
             "fm" => cases_cmd!(fmx, &args),
             _ => cases_cmd!(rist, &args),
+        },
+        "gens" => match arg(&args, "--group").unwrap_or("rist") {
+            "fm" => gens_cmd!(fmx, &args, |_s: &Value| Vec::<String>::new()),
+            _ => gens_cmd!(rist, &args, rist_pedersen_check),
         },
         "trace" => {
             // run scenarios on the free-module group with every instrument recording; write ndjson trace events
